@@ -195,6 +195,33 @@ def s4(run):
                'outcome %r' % (o,))
 
 
+def s5(run, tu):
+    """white space between tokens is not significant: the parser may look at the *text* after the current token only
+    through a scan that skips white space first (the Python parser never sees white space at all)"""
+    names = [n for n, f in tu.functions.items() if tu.has_func(n) and (tu.rel(f.get('file')) or '').endswith('parse_c_type.c')]
+    run.need(len(names) >= 5, 'functions of parse_c_type.c not found')
+    n_sites = 0
+    for name in sorted(names):
+        if name in ('next_token',):
+            continue            # the tokenizer itself
+        fn = tu.func(name)
+        raw = []
+        for x in cx.walk(fn):
+            if cx.is_expr(x) and x.get('kind') == 'ArraySubscriptExpr' and cx.render(x).replace(' ', '').startswith('tok->p[tok->size'):
+                raw.append(x)           # the character after the token, read directly
+            elif x.get('kind') == 'VarDecl' and x.get('init') and cx.kids(x) and cx.render(cx.kids(x)[-1]).replace(' ', '') == 'tok->p+tok->size':
+                raw.append(x)           # a cursor set to the text after the token (to be scanned)
+        if not raw:
+            continue
+        skips = any(st.get('kind') in ('WhileStmt', 'ForStmt', 'DoStmt') and 'is_space' in cx.called_names(st) for st in cx.walk(fn))
+        for x in raw:
+            n_sites += 1
+            direct_char = x.get('kind') == 'ArraySubscriptExpr'
+            run.ob('S5/text-after-a-token-is-examined-past-white-space', name, cx.render(x) if direct_char else '%s = tok->p + tok->size' % x.get('name'), skips and not direct_char, tu.where(x),
+                   'the character right after the token is examined as is: `(void )` or `( void)` would then differ from `(void)`, which the in-line parser cannot distinguish')
+    run.need(n_sites >= 1, 'parse_c_type.c: no look-ahead past the current token found (the lone-void test changed shape)')
+
+
 def check(run):
     run.technique = ('sibling decision tables: the specifier automaton of the C parser extracted by constant propagation over the CFG of parse_complete '
                      '(per state x token), the Python normalisation walked symbolically per specifier sequence; compared on all 2387 sequences')
@@ -252,5 +279,6 @@ def check(run):
     run.assume('pycparser hands the specifiers over in source order in IdentifierType.names (its grammar accepts any sequence of specifiers); '
                'decided: the specifier tables of the two parsers; NOT decided: declarators, qualifiers, arrays, function types, typedef and tag lookup; S4 decides that text which is not one type is rejected by the in-line parser too')
     s4(run)
+    s5(run, tu)
     run.min_instances('S3', 60)
     run.min_instances('S4', 6)
